@@ -176,3 +176,44 @@ func VP_C14_SaltNeverReused() {
 	}
 	vpCover("end")
 }
+
+// VP_C14_RewriteStampsCurrentTime: a rewrite names the *current* time and the default set whatever
+// the record it replaces says: records dated in the past, at this very second, in the future (a
+// store copied from a host whose clock runs ahead) or far in the future; of either parameter set.
+func VP_C14_RewriteStampsCurrentTime() {
+	base := vpMkStoreDir()
+	def := uint(1 + vpChoose("default-set", 2))
+	set := uint(1 + vpChoose("record-set", 2))
+	d := vpNewDir(base, def)
+	opw := vpStr("oldpw", 2)
+	salt := vpBytes("salt", refSaltLen(set))
+	now := time.Now().Unix()
+	oldTs := []int64{1, 1600000000, now, now + 1, now + 86400, 9999999999}[vpChoose("old-record-time", 6)]
+	first := refRecord(set, oldTs, salt, refDigest(set, opw, salt))
+	if os.WriteFile(filepath.Join(base, "u.user"), []byte(first), 0600) != nil {
+		panic("setup")
+	}
+	ok, _, _, lc, aerr := d.Authenticate("u", opw)
+	vpAssert("old-record-is-valid", aerr == nil && ok)
+	vpAssert("last-changed-is-the-records-time", lc.Unix() == oldTs)
+	pw := vpStr("pw", 2)
+	lo := time.Now().Unix()
+	vpAssert("update-ok", d.UpdateUser("u", pw) == nil)
+	hi := time.Now().Unix()
+	raw, rerr := os.ReadFile(filepath.Join(base, "u.user"))
+	vpAssert("record-file-exists", rerr == nil)
+	f, rest, okk := vpSplitRecord(string(raw))
+	vpAssert("single-line-five-fields", okk && rest == "")
+	if !okk {
+		return
+	}
+	ts, terr := strconv.ParseInt(f[1], 10, 64)
+	vpAssert("rewrite-timestamp-is-current-unix-time", terr == nil && ts >= lo && ts <= hi)
+	vpAssert("rewrite-names-the-default-set", f[2] == strconv.FormatUint(uint64(def), 10))
+	s2, serr := base64.URLEncoding.DecodeString(f[3])
+	vpAssert("rewrite-salt-fresh", serr == nil && vpFreshBytes(s2))
+	ok2, _, _, lc2, aerr2 := d.Authenticate("u", pw)
+	vpAssert("new-record-authenticates", aerr2 == nil && ok2)
+	vpAssert("reported-last-changed-is-the-new-records-time", lc2.Unix() == ts)
+	vpCover("end")
+}
